@@ -839,21 +839,11 @@ theorem makeEdgesAll_inv {m : Mol} (h : m.Inv) : m.makeEdgesAll.Inv :=
 theorem addLog_inv {m : Mol} (h : m.Inv) (lvl : Int) (entry : String) (args : List FmtArg) :
     (m.addLog lvl entry args).Inv := h
 
-/-- what `Molecule.clear()` leaves of the invariant: the interactions stay, so it survives exactly
-when no interaction has an atom -/
-theorem clear_inv_iff (m : Mol) : m.clear.Inv ↔ ∀ ti ∈ m.inters, ti.2.atoms = [] := by
-  constructor
-  · intro h ti hti
-    have := h.1.2.2 ti hti
-    cases hat : ti.2.atoms with
-    | nil => rfl
-    | cons a t => have := this a (by rw [hat]; exact List.mem_cons_self); cases this
-  · intro h
-    apply Mol.inv_of_wf_none _ rfl
-    refine ⟨List.nodup_nil, ?_, ?_⟩
-    · intro e he; cases he
-    · intro ti hti a ha
-      have : ti ∈ m.inters := hti
-      rw [h ti this] at ha; cases ha
+/-- `Molecule.clear()` leaves the empty molecule with an empty interaction table -/
+theorem clear_inv (m : Mol) : m.clear.Inv := by
+  apply Mol.inv_of_wf_none _ rfl
+  refine ⟨List.nodup_nil, ?_, ?_⟩
+  · intro e he; cases he
+  · intro ti hti; cases hti
 
 end C12
